@@ -340,7 +340,7 @@ func (m *model) block(h int64, t time.Time, ops []op, amounts []int64, res []har
 				}
 			}
 			if !okRec {
-				m.violate(fmt.Sprintf("C19|vote-record-mismatch|op=%s|world=%s", name, cls),
+				m.violate("C19|vote-record-mismatch|op=vote",
 					fmt.Sprintf("height %d: request %s stores votes %v, accepted votes were %v", h, id, got, r.votes))
 			}
 		}
